@@ -293,3 +293,44 @@ func (r *ruler) atonRule() {
 		r.s.Bad("V19", r.key("ATON", "success paths"), r.pos, fmt.Sprintf("aton must have an integer and a float success path, found %d", n))
 	}
 }
+
+// boundsRule (V20): every index or slice expression a handler evaluates on a
+// value it does not own is within bounds on that path. The code and data
+// segments are addressed by what the compiler emitted (B3/V18 keep ip inside
+// the code, B10/E2 make data operands address entries that exist); anything
+// else — the text of a string operand, a payload — must be guarded by a
+// comparison on the same path, otherwise the expression aborts the interpreter
+// for some operand ("index out of range").
+func (r *ruler) boundsRule() {
+	type site struct {
+		pos  string
+		what string
+	}
+	unproved := map[string]site{}
+	n, seg := 0, 0
+	for _, op := range r.ops() {
+		for _, pa := range r.m.Paths[op] {
+			for _, ix := range pa.Idx {
+				n++
+				if strings.Contains(ix.X, "CR.CS") || strings.Contains(ix.X, "CR.DS") {
+					seg++
+					continue
+				}
+				if !ix.Proved {
+					k := op + " / " + ix.Kind + " of " + ix.X
+					if _, dup := unproved[k]; !dup {
+						unproved[k] = site{r.m.P.Pos(ix.Site.Pos()), ix.String()}
+					}
+				}
+			}
+		}
+	}
+	key := "vm.Run / index and slice expressions in handlers are within bounds"
+	if len(unproved) == 0 {
+		r.s.OK("V20", key, r.pos, fmt.Sprintf("%d expressions on symbolic containers, %d into the code / data segment (compiler rules), the others guarded on their path", n, seg))
+		return
+	}
+	for _, k := range load.SortedKeys(unproved) {
+		r.s.Bad("V20", r.key(strings.SplitN(k, " / ", 2)[0], "unguarded "+strings.SplitN(k, " / ", 2)[1]), unproved[k].pos, "no comparison on this path establishes the bound of "+unproved[k].what+": for some operand value the expression indexes out of range and the Go runtime aborts the interpreter")
+	}
+}
